@@ -252,3 +252,14 @@ Proof. exact g_msg_reader_total. Qed.
 Theorem C12_gen_reader_bounded : forall en b name ty seq n,
   wf b -> g_thrift_ReadMessageBegin en b = Ok (name, ty, seq, n, gnil) -> (0 <= n <= glen b)%Z.
 Proof. exact g_msg_reader_bounded. Qed.
+
+(* ---------- tools/gotrans phase 3: MarshalFastMsg / FastMarshal regenerated from protocol/thrift/fastcodec.go over an abstract FastCodec and proved equal to Model/Message.v marshal_fast_msg (Proofs/GenEquivFastCodec.v) ---------- *)
+From GV Require Import Lib.GoSem Gen.Funcs Proofs.GenLib Proofs.GenLib3 Proofs.GenEquivFastCodec Proofs.GenCorollariesFastCodec.
+
+Theorem C12_gen_marshal_rt :
+  forall (St : Type) (mBL : St -> res (St * Z)) (mFW : St -> bytes -> res (St * bytes * Z)) (P : Type) (p_blen : P -> N) (p_write : P -> bytes -> res (bytes * N)) (p_read : P -> bytes -> P * res N) (p_enc : P -> bytes) (p_target : P -> Prop), (forall m : P, p_blen m = len (p_enc m)) -> (forall (m : P) (s : list N), len (p_enc m) <= len s -> p_write m s = Ok (p_enc m ++ drop (len (p_enc m)) s, len (p_enc m))) -> (forall (m0 m : P) (rest : list N), p_target m0 -> p_read m0 (p_enc m ++ rest) = (m, Ok (len (p_enc m)))) -> forall repr : St -> P -> Prop, (forall (st : St) (msg : P), repr st msg -> exists st1 : St, mBL st = Ok (st1, Z.of_N (p_blen msg)) /\ repr st1 msg) -> (forall (st : St) (msg : P) (buf : list N), repr st msg -> glen_ok buf -> rrel (fun (bk : bytes * N) (r : St * bytes * Z) => snd (fst r) = fst bk /\ snd r = Z.of_N (snd bk) /\ repr (fst (fst r)) msg) (p_write msg buf) (mFW st buf)) -> forall (dirt : bytes) (skipf : bytes -> Z -> res N) (name : list N) (ty seq : Z) (m m0 : P) (st : St), repr st m -> (glen name + 12 + Z.of_N (len (p_enc m)) < 2 ^ 63)%Z -> name <> [] -> len name < two31 -> in_signed 32 seq -> (ty mod 65536)%Z <> thrift_EXCEPTION -> p_target m0 -> exists (st' : St) (b : bytes), g_thrift_MarshalFastMsg St mBL mFW (xdirtbuf dirt) name ty seq st = Ok (st', b, gnil) /\ repr st' m /\ b = enc_msg name ty seq ++ p_enc m /\ unmarshal_fast_msg P p_read skipf b m0 = Ok {| u_method := name; u_seq := seq; u_err := UNil; u_msg := m |}.
+Proof. exact (@g_C12_marshal_rt). Qed.
+
+Theorem C12_gen_marshal_empty_name :
+  forall (St : Type) (mBL : St -> res (St * Z)) (mFW : St -> bytes -> res (St * bytes * Z)) (xd : Z -> Z -> res bytes) (ty seq : Z) (st : St), g_thrift_MarshalFastMsg St mBL mFW xd [] ty seq st = Ok (st, [], Some (ecode "thrift.MarshalFastMsg#errors.New")).
+Proof. exact (@g_C12_marshal_empty_name). Qed.
